@@ -46,7 +46,13 @@ CLAIM = dict(
     "the regularisation parameter L scaled along - with fixed L its unconverged iterates are not homogeneous: known finding); constant "
     "weight; first-moment bound (also proved, see above); 1-D and thin n x 1 (x 1) grids against the closed form for every method x mobility x L1 mode; "
     "front-end = back-end; EMD single-cell moves, symmetry, scaling, first-moment bound.",
-    note="Round 4 batch 3: the cyclic-grid and thin-grid runs cycle through documented solver option variants (bregman_update at various iterations, "
+    note="Round 5: for DEFAULT-L Bregman the sentence 'scales linearly when both masses are multiplied' is NOT enforced beyond the two bounded known "
+    "signatures (unconverged <= 100 %, flagged-converged <= 15 %); it is enforced exactly under joint scaling of (masses, L, regularization), for "
+    "Newton with all options fixed (1e-5), on thin grids, and weight-only scaling (all options fixed) for Newton and Bregman (1e-5, measured 1e-15). "
+    "For RAVIART_THOMAS the certified lower bound is the midpoint dual, up to ~15 % below the scipy minimum: a distance in that gap passes the "
+    "'never below the minimum' clause and is stopped only by 'distance = cost of a mass-conserving flux' (checked to 1e-9 / 1e-8, Anderson "
+    "variants 3e-8 / 3e-7). A missing dual certificate or a skipped front-end/back-end comparison is a TIE-BROKEN mark. The 'dispatch' "
+    "correspondence is an emitter self-check; dispatch_total is the statement. Thorough enumerates every thin size 2..40. Round 4 batch 3: the cyclic-grid and thin-grid runs cycle through documented solver option variants (bregman_update at various iterations, "
     "bregman_homogeneous, Anderson acceleration, full / flux_reduced formulation; iterative linear back-ends are C08's and excluded); the "
     "RAVIART_THOMAS rule is compared with an independent Gauss-Legendre tensor rule and the closed forms use independent rules for all three "
     "modes; EMD is also run on space-time images (per-slice results and per-slice signatures). Not covered: convergence of Newton/Bregman to the minimum (C04/C08 own the solver internals; flagged-converged runs are only "
@@ -78,6 +84,10 @@ TOL_GEN = 1e-7     # generic scaling factors: input rounding 1e-16 amplified thr
 TOL_MASSONLY_NEWTON = 1e-5  # masses scaled, absolute clamp eps NOT scaled: unconverged Newton/SUBCELL runs on compact data deviate by 1e-7
 CONVERGED_OVER_MIN = 0.25   # flagged-converged runs vs scipy minimum of the same functional: measured <= 0.10 (Bregman), <= 0.03 (Newton)
 BREGMAN_FIXED_L_BOUND = {False: 1.0, True: 0.15}  # measured: unconverged <= 0.66, flagged-converged (tolerances 1e-6..1e-8) <= 0.047
+ANDERSON_SLACK = 30.0  # was 1e3 before fix fdff869; the mixture of earlier iterates inherits the conditioning-limited accuracy of their
+# direct solves on degenerate-mobility inputs (measured 2.7e-9 on the 1-D 'centre-zero' input, i.e. 2.7 x the plain tolerance)
+TOL_GEN_BREGMAN = 1e-4  # the shrink step thresholds (max(.,0)): under a non-power-of-two factor rounding can flip a face in / out of the
+# active set of an unconverged iterate (measured 3e-6 on 4x5 after 200 iterations); power-of-two factors stay at 1e-9
 TOL_TIE = 1e-9     # returned distance vs independently recomputed cost of the returned flux
 TOL_FEAS = 1e-8    # mass conservation of the returned flux relative to max|rhs| (direct linear solves; observed <= 1e-13)
 
@@ -106,7 +116,7 @@ VARIANTS = {"newton": ["plain", "aa2", "aa3r", "full", "fluxred"],
 def variant_slack(tag):
     """Anderson acceleration replaces the iterate by a least-squares combination of earlier iterates: mass conservation and the
     closed forms then hold to the conditioning of that small problem (observed 3e-9), not to rounding"""
-    return 1e3 if tag.startswith("aa") else 1.0
+    return ANDERSON_SLACK if tag.startswith("aa") else 1.0
 
 
 def variant_options(tag):
@@ -345,7 +355,7 @@ def run_case(cfg):
     if not (np.array_equal(ia.img, m1) and np.array_equal(ib.img, m2)):
         fail(f"C05:modifies-input:{method}", f"{cls}: wasserstein_distance changed the caller's images")
     # (vi) scaling of both masses; for Bregman the regularisation parameter L ("approximate flux norm") is scaled along
-    for s, tol, tag in ((cfg["pow2"], TOL_EXACT, "pow2"), (cfg["gen"], TOL_GEN, "generic")):
+    for s, tol, tag in ((cfg["pow2"], TOL_EXACT, "pow2"), (cfg["gen"], TOL_GEN_BREGMAN if method == "bregman" else TOL_GEN, "generic")):
         rr = go(s * m1, s * m2, L=s if method == "bregman" else 1.0, reg=s)
         if isinstance(rr, Raised):
             fail(f"C05:scale:raises:{method}", f"{cls}: scaled pair raises {rr}")
@@ -386,6 +396,17 @@ def run_case(cfg):
         stats["max_weight_err"] = e
         if e > TOL_GEN:
             fail(f"C05:weight:{method}", f"{cls} grid {shape}: constant weight {k!r}: distance {float(rw[0])!r} != {k!r} * {dist!r}", distance=dist, k=k, weighted=float(rw[0]))
+    # (vii') the clause as written: ONLY the constant cell weight changes, every solver option (regularization, L) stays fixed
+    if cfg.get("fixedL") or thin:
+        rwo = go(m1, m2, L=1.0, weight=k * np.ones(shape), reg=1.0)
+        if isinstance(rwo, Raised):
+            fail(f"C05:weight-only:raises:{method}", f"{cls}: constant weight raises {rwo}")
+        else:
+            e = abs(float(rwo[0]) / k - dist) / max(dist, scale)
+            stats[f"max_weight_only_{method}_err"] = e
+            if e > TOL_MASSONLY_NEWTON:
+                fail(f"C05:weight-only:{method}", f"{cls} grid {shape}: constant weight {k!r} with all solver options fixed: distance {float(rwo[0])!r} != {k!r} * {dist!r} "
+                     f"(relative deviation {e:.3g})", distance=dist, k=k, weighted=float(rwo[0]))
     # (viii) front-end returns what the back-end returns
     try:
         from darsia.measure import wasserstein as W
@@ -398,8 +419,10 @@ def run_case(cfg):
         n += 1
         if isinstance(be, Raised) or float(be[0]) != dist:
             fail(f"C05:frontend!=backend:{method}", f"{cls}: front-end {dist!r}, back-end {be if isinstance(be, Raised) else float(be[0])!r}")
-    except (ImportError, AttributeError, KeyError):
-        pass
+    except (ImportError, AttributeError, KeyError) as e:
+        stats["backend_check_skipped"] = 1.0
+        skipped = f"{type(e).__name__}: {e}"
+        return dict(fails=fails, n=n, stats=stats, skipped_backend=skipped)
     return dict(fails=fails, n=n, stats=stats)
 
 
@@ -447,7 +470,7 @@ def tabulate_dispatch(d):
 
 
 def emit_dispatch(t):
-    L = ["import DarsiaModel.Basic", "namespace Darsia.Gen", "open Darsia", "",
+    L = ["import DarsiaModel.Basic", "namespace Darsia.Gen.Transport", "open Darsia", "",
          "/-- spellings of the `method` argument of `darsia.wasserstein_distance` that are tabulated -/",
          "inductive Method", "  | " + " | ".join(METHODS), "  deriving DecidableEq, Repr", "",
          "def Method.all : List Method := [" + ", ".join("." + k for k in METHODS) + "]", "",
@@ -456,7 +479,7 @@ def emit_dispatch(t):
     for k in METHODS:
         v = t[k]
         L.append(f"  | .{k} => " + (f"(.error .{v.cls})" if isinstance(v, Raised) else f"(.ok .{v})"))
-    L += ["", "end Darsia.Gen"]
+    L += ["", "end Darsia.Gen.Transport"]
     return "\n".join(L) + "\n"
 
 
@@ -610,7 +633,7 @@ def emd_oracle(ctx, d):
     for _ in range(ctx.pick(6, 30)):
         rows, cols = rng.randint(1, 4), rng.randint(1, 4)
         dy, dx = rng.choice((0.25, 0.5, 1.0, 2.0, 1.5)), rng.choice((0.25, 0.5, 1.0, 0.75))
-        a = np.array([rng.randint(0, 8) / 8 for _ in range(rows * cols)])
+        a = np.array([rng.randint(0, 4) / 8 for _ in range(rows * cols)])  # at most 16 pixels of at most 1/2
         a[0] += 8.0 - a.sum()  # total 8: every weight a/8 is exact in float32
         img = image(d, a.reshape(rows, cols), [rows * dy, cols * dx])
         try:
@@ -643,8 +666,8 @@ def emd_oracle(ctx, d):
                 a[rng.randrange(rows), rng.randrange(cols)] = 2.0
                 b[rng.randrange(rows), rng.randrange(cols)] = 2.0
             else:
-                a = np.array([rng.randint(0, 8) / 8 for _ in range(rows * cols)]).reshape(rows, cols)
-                b = np.array([rng.randint(0, 8) / 8 for _ in range(rows * cols)]).reshape(rows, cols)
+                a = np.array([rng.randint(0, 4) / 8 for _ in range(rows * cols)]).reshape(rows, cols)
+                b = np.array([rng.randint(0, 4) / 8 for _ in range(rows * cols)]).reshape(rows, cols)
                 a[0, 0] += 8.0 - a.sum()
                 b[-1, -1] += 8.0 - b.sum()
             pairs.append((a, b))
@@ -749,8 +772,10 @@ def thin_correspondence(ctx, d):
     nmax = ctx.pick(14, 40)
     cases = []
     forms = [lambda n: (n,), lambda n: (n, 1), lambda n: (1, n), lambda n: (n, 1, 1), lambda n: (1, n, 1), lambda n: (1, 1, n)]
-    for i in range(ctx.pick(18, 90)):
-        n = rng.choice((2, 3, nmax)) if i % 5 == 0 else rng.randint(2, nmax)
+    # thorough: EVERY size 2..40 once (grid form, method, mobility, L1 mode and option variant rotate), then random ones
+    sizes = list(range(2, 41)) if ctx.big else []
+    for i in range(ctx.pick(18, 39 + 60)):
+        n = sizes[i] if i < len(sizes) else (rng.choice((2, 3, nmax)) if i % 5 == 0 else rng.randint(2, nmax))
         shape = forms[i % len(forms)](n)
         dim = len(shape)
         a = shape.index(n)
@@ -772,11 +797,13 @@ def thin_correspondence(ctx, d):
         req = f"thin {dim} {' '.join(map(str, shape))} {flist(hs)} {a} {flist(w)} {flist(pts.ravel())} {flist(f)}"
         cases.append(dict(shape=list(shape), hs=hs, m1=m1.reshape(shape, order="F").tolist(), m2=m2.reshape(shape, order="F").tolist(),
                           method=method, mob=mob, l1=l1, a=a, req=req, var=VARIANTS[method][i % len(VARIANTS[method])]))
+    ctx.cov["thin_sizes_enumerated"] = sorted(set(max(c["shape"]) for c in cases))
     with mp.get_context("fork").Pool(min(16, max(2, mp.cpu_count()))) as pool:
         res = pool.map(thin_case, [(c["shape"], c["hs"], c["m1"], c["m2"], c["method"], c["mob"], c["l1"], c["var"]) for c in cases], chunksize=1)
     model = ctx.model([c["req"] for c in cases])
     bad = 0
     worst = 0.0
+    degenerate_seen = []
     for c, r, m in zip(cases, res, model):
         ctx.count(("thin", c["req"], c["method"], c["mob"]))
         rp = {k: c[k] for k in ("shape", "hs", "m1", "m2", "method", "mob", "l1")} | {"num_iter": 100, "variant": c["var"]}
@@ -796,6 +823,19 @@ def thin_correspondence(ctx, d):
         dist, U_axes = r[1], r[2]
         got_u = np.array(U_axes[c["a"]])
         sl = variant_slack(c["var"])
+        # input class "degenerate mobility": the unique flux vanishes EXACTLY on a face (only dyadic data do that). The mobility
+        # weights there reach 1/regularization, the linear systems have condition 1e16 and Newton's iterates lose mass conservation
+        # (C04's known class `degenerate-mobility`); reported under its own bounded signature
+        if any(x == 0.0 for x in uf) and c["method"] == "newton":
+            du = float(np.max(np.abs(np.array(uf) - got_u)) / max(1.0, float(np.max(np.abs(uf))))) if len(uf) == len(got_u) and len(uf) else float("inf")
+            dd = abs(dist - want) / max(want, 1e-12)
+            degenerate_seen.append((c["shape"], c["mob"], c["var"], du, dd))
+            if du > sl * 1e-9 or dd > sl * 1e-9:
+                bound_ok = du <= 0.10 and dd <= 0.02
+                ctx.fail("C05:thin-grid:degenerate-mobility:newton:flux<=10%:distance<=2%" if bound_ok else "C05:thin-grid:degenerate-mobility:newton:beyond-bounds",
+                         f"grid {tuple(c['shape'])} {c['l1']} {c['mob']} variant {c['var']}: the unique flux vanishes on a face; Newton returns a flux off by {du:.3g} (relative) and "
+                         f"distance {dist!r} instead of {want!r} (relative {dd:.3g})", {**rp, "distance": dist, "closed_form": want})
+            continue
         if len(uf) != len(got_u) or (len(uf) and np.max(np.abs(np.array(uf) - got_u)) > sl * 1e-9 * max(1.0, float(np.max(np.abs(uf))))):
             ctx.fail(f"C05:thin-grid:flux:{c['method']}", f"grid {tuple(c['shape'])}: returned flux differs from the unique mass-conserving flux (prefix sums)",
                      {**rp, "model_flux": uf, "impl_flux": got_u.tolist()})
@@ -804,6 +844,7 @@ def thin_correspondence(ctx, d):
             ctx.fail(f"C05:thin-grid:mobility={c['mob']}:{c['method']}", f"grid {tuple(c['shape'])} {c['l1']}: distance {dist!r} but the unique mass-conserving flux costs {want!r} (exact model value)",
                      {**rp, "distance": dist, "closed_form": want})
     ctx.cov.setdefault("correspondence", {})["thin-unique-flux-and-cost(model exact vs solver, rel 1e-9)"] = {"cases": len(cases), "disagreements": bad, "max_rel_err": worst}
+    ctx.cov["thin_degenerate_mobility_newton_cases(shape, mobility, variant, flux dev, distance dev)"] = degenerate_seen[:40]
     if bad:
         ctx.mark("TIE-BROKEN", {"correspondence": "thin-unique-flux-and-cost", "bad_model_lines": bad, "request": first[0], "model": first[1]})
 
@@ -1146,6 +1187,12 @@ def bruteforce(ctx):
         cfgs.append(dict(shape=list(shape), hs=hs, m1=m1.tolist(), m2=m2.tolist(), runs=runs, seeds=ctx.pick(1, 4), bregman_converged=(i < ctx.pick(2, 6) and int(np.prod(shape)) <= 6)))
     with mp.get_context("fork").Pool(min(16, max(2, mp.cpu_count()))) as pool:
         res = pool.map(bf_case_safe, cfgs, chunksize=1)
+    uncertified = [(cfg["shape"], r.get("cert_error", "LP infeasible / not solved")) for cfg, r in zip(cfgs, res) if not r["cert"]]
+    uncertq = [(cfg["shape"], r.get("certq_error", "LP infeasible / not solved")) for cfg, r in zip(cfgs, res) if r["cert"] and not r.get("certq")]
+    if uncertified or uncertq:
+        # without a certificate the clause "never below the true minimum" is not evaluated on that grid: a broken tie, not a pass
+        ctx.mark("TIE-BROKEN", {"bruteforce": "no dual certificate for some grids", "midpoint_dual_missing": uncertified[:5], "corner_dual_missing": uncertq[:5],
+                                "grids": len(cfgs)})
     reqs = [r["cert"]["req"] for r in res if r["cert"]]
     model = ctx.model(reqs)
     # per-point corner certificates: exact re-check by the Lean model (certRuleOK), value compared as a rational
@@ -1268,7 +1315,7 @@ def run(ctx):
     ctx.prove("C05")
     # dispatch table: model (generated) vs implementation, and the statement on the implementation
     lines = [f"dispatch {k}" for k in METHODS]
-    ctx.correspond("dispatch", lines, [repr(t[k]) if isinstance(t[k], Raised) else t[k] for k in METHODS])
+    ctx.correspond("dispatch(emitter self-check: generated table vs the tabulation it was emitted from)", lines, [repr(t[k]) if isinstance(t[k], Raised) else t[k] for k in METHODS])
     for k, want in (("newton", "newton"), ("bregman", "bregman"), ("cv2emd", "emd"), ("newtonCap", "newton"), ("bregmanUpper", "bregman"), ("cv2emdUpper", "emd")):
         if t[k] != want:
             ctx.fail(f"C05:dispatch:{k}", f"wasserstein_distance(method={METHODS[k]!r}) reaches {t[k]!r}, documented back-end is {want}", {"method": METHODS[k]})
@@ -1283,6 +1330,7 @@ def run(ctx):
     with mp.get_context("fork").Pool(min(16, max(2, mp.cpu_count()))) as pool:
         results = pool.map(run_case_safe, cases, chunksize=1)
     agg = {}
+    backend_skips = []
     solves = 0
     for cfg, res in zip(cases, results):
         thin = sum(1 for s in cfg["shape"] if s > 1) <= 1
@@ -1290,10 +1338,15 @@ def run(ctx):
         solves += res["n"]
         for k, v in res["stats"].items():
             agg[k] = max(agg.get(k, 0.0), float(v))
+        if res.get("skipped_backend"):
+            backend_skips.append(res["skipped_backend"])
         for sig, what, rp in res["fails"]:
             ctx.fail(sig, what, rp)
         if len(ctx.cov["samples"]) < 4:
             ctx.sample({"case": {k: cfg[k] for k in ("shape", "hs", "method", "l1", "mob", "num_iter")}, "thin": thin, "stats": res["stats"]})
+    if backend_skips:
+        # the front-end = back-end clause could not be evaluated: that is a broken tie, not a pass
+        ctx.mark("TIE-BROKEN", {"clause": "front-end returns what the back-end returns", "skipped_cases": len(backend_skips), "reason": backend_skips[0]})
     ctx.cov["solver_runs"] = solves
     ctx.cov["measured_max_relative_errors"] = agg
     ctx.cov["tolerances"] = {"swap/pow2/identical": TOL_EXACT, "generic scaling/weight": TOL_GEN, "distance = cost(flux)": TOL_TIE, "mass conservation": TOL_FEAS,
